@@ -1,7 +1,7 @@
 #!/bin/bash
 # usage: tools/try_mutant.sh <patch.diff> <ID> [<ID> ...]  -- apply to /repo, run the checks, always undo
 P=$1; shift
-git -C /repo apply "$P" || { echo "patch does not apply"; exit 2; }
+git -C /repo apply "$(realpath "$P")" || { echo "patch does not apply"; exit 2; }
 trap 'git -C /repo checkout -- . ' EXIT
 for id in "$@"; do
   VERIF_NO_EVIDENCE=1 /verif/vcheck $id 2>&1 | tail -8
